@@ -11,10 +11,28 @@ package statsdaemon
 //@   sendsite requires [sender.Stream] ch == client.sender.Sink && val.Cb == cb && val.Ctx == ctx
 //@   ensures  calls(cb) + sent(old(client.sender.Sink)) - old(sent(client.sender.Sink)) == 1
 //@   modifies everything
+// processMetrics (C04/C16/C17): the datagram under construction always exists and respects the packet size, between
+// any two lines; the buffer given back to the pool when the function returns is never nil. What sync.Pool hands out
+// is assumed: an empty *bytes.Buffer (PutBuffer resets before it puts).
 //@ func (*Client).processMetrics
-//@   trusted
+//@   requires client != nil && metrics != nil && handler != nil
+//@   callsite Get yields isType(result, bytes.Buffer) && payload(result, bytes.Buffer) != nil && len(payload(result, bytes.Buffer).buf) == 0
+//@   callsite PutBuffer requires calls(handler) >= 1 && !lastresult(handler, 1) ==> buf == lastresult(handler, 0)
 //@   modifies everything
-//@   preserves statsdaemon.Client, sender.Sender
+//@ func (*Client).processMetrics$4
+//@   iter invariant calls(handler) == 0
+//@   iter invariant dgramOK(outer(buf), outer(line), outer(client).packetSize) && outer(client) != nil
+//@ func (*Client).processMetrics$5
+//@   iter invariant calls(handler) == 0
+//@   iter invariant dgramOK(outer(buf), outer(line), outer(client).packetSize) && outer(client) != nil
+//@   loop 1 invariant calls(handler) == 0 && dgramOK(outer(buf), outer(line), outer(client).packetSize) && outer(client) != nil
+//@ func (*Client).processMetrics$6
+//@   iter invariant calls(handler) == 0
+//@   iter invariant dgramOK(outer(buf), outer(line), outer(client).packetSize) && outer(client) != nil
+//@ func (*Client).processMetrics$7
+//@   iter invariant calls(handler) == 0
+//@   iter invariant dgramOK(outer(buf), outer(line), outer(client).packetSize) && outer(client) != nil
+//@   loop 1 invariant calls(handler) == 0 && dgramOK(outer(buf), outer(line), outer(client).packetSize) && outer(client) != nil
 
 // ---- the relay's datagram size (C17) ------------------------------------------------------------------------------
 // The overflow handler takes the datagram built so far and, unless it says stop, gives back an empty buffer to
